@@ -127,6 +127,26 @@ class Interp:
                 return
         elif isinstance(t, ast.Name) and t.id in HMULT:
             del HMULT[t.id]
+        # a parameter set built by a helper of the class and named before it is used
+        if isinstance(t, ast.Name):
+            ho = self.helper_offset(v)
+            if ho is not None:
+                if isinstance(ho, str):
+                    self.problems.append(ho)
+                    self.poff.pop(t.id, None)
+                else:
+                    self.poff[t.id] = ho
+                return
+        # a point built by a helper of the class from a tracked array and named before it is used
+        if isinstance(t, ast.Name) and isinstance(v, ast.Call) and isinstance(v.func, ast.Attribute) and src(v.func.value) == 'self' \
+                and v.func.attr in self.methods and v.func.attr != '_evaluate_model' \
+                and any(isinstance(a_, ast.Name) and a_.id in self.xoff for a_ in list(v.args) + [k_.value for k_ in v.keywords]):
+            xs = self.inline_point(v)
+            if xs is not None:
+                self.xoff[t.id] = dict(self.xoff[xs])
+            else:
+                self.xoff.pop(t.id, None)
+            return
         # array copies
         if isinstance(t, ast.Name) and isinstance(v, ast.Call) and src(v.func) in ('np.array', 'np.copy', 'numpy.array') and v.args \
                 and isinstance(v.args[0], ast.Name) and (v.args[0].id in self.xoff):
@@ -530,8 +550,13 @@ def check_evaluate(ctx):
     m = ctx.prog.mod('analysis')
     init = get_method(ctx, '__init__')
     txt = [util.stmt_key(s).replace(' ', '') for s in init.body]
-    ok = 'self.original_parameters=dict(M.get_parameter_dictionary())' in txt and 'sim=ModelCSimInterface(self.M)' in txt and \
-        'sim.py_prep_deterministic_simulation()' in txt and 'self.sim_interface=sim' in txt
+    # (the model may be named by the constructor argument it was stored from; the interface local may have any name)
+    marg = init.args.args[1].arg
+    model_names = {'self.M'} | ({marg} if 'self.M=%s' % marg in txt else set())
+    ok = any(('self.original_parameters=dict(%s.get_parameter_dictionary())' % m_) in txt for m_ in model_names)
+    ifaces = [s_.targets[0].id for s_ in init.body if isinstance(s_, ast.Assign) and isinstance(s_.targets[0], ast.Name) and isinstance(s_.value, ast.Call)
+              and src(s_.value.func) == 'ModelCSimInterface' and len(s_.value.args) == 1 and src(s_.value.args[0]) in model_names]
+    ok = ok and len(ifaces) == 1 and ('%s.py_prep_deterministic_simulation()' % ifaces[0]) in txt and ('self.sim_interface=%s' % ifaces[0]) in txt
     ctx.ob('R18.4-restore', 'original-parameters-copy', ok, ctx.loc('analysis', init),
            'the original parameters are a copy taken at construction; the interface is prepared for derivative evaluation', '')
     # entry points
